@@ -3,4 +3,5 @@ import Nject.Chain
 import Nject.Exec
 import Nject.Spec
 import Nject.WF
+import Nject.Edit
 import Nject.Driver
